@@ -92,13 +92,56 @@ fn dict_merge_preserves_receiver() {
     let (x, y, z) = (s(&b1, l1), s(&b2, l2), s(&b3, l3));
     let ix = p.encode(x);
     let iy = p.encode(y);
-    let _ = q.encode(z);
+    // Dictionary::merge is only meaningful for dictionaries that agree where they overlap (a snapshot of the
+    // receiver that went on encoding on its own, a worker's dictionary): with clashing ids no merge can keep both
+    // sides' meaning -- that case is what SparqlDatabase::union re-encodes for. q shares a prefix of p's history:
+    let snap: u8 = kani::any();
+    kani::assume(snap <= 2);
+    if snap >= 1 { q.encode(x); }
+    if snap >= 2 { q.encode(y); }
+    let iz = q.encode(z);
+    // agreement on the overlap: the id q uses for z is unused in p or means z there too; a shared string has one id
+    kani::assume(match p.decode(iz) { Some(t) => t == z, None => true });
+    kani::assume(!(z == x && iz != ix) && !(z == y && iz != iy));
     p.merge(&q);
     assert!(p.decode(ix) == Some(x));
     assert!(p.decode(iy) == Some(y));
     assert!(p.encode(x) == ix);
     assert!(p.encode(y) == iy);
-    kani::cover!(x != y && z != x && z != y, "clashing ids on both sides");
+    // a term first seen after the merge must get an id nobody holds: the earlier ids keep their terms
+    let b4 = ascii2();
+    let l4: bool = kani::any();
+    let w = s(&b4, l4);
+    let iw = p.encode(w);
+    assert!((iw == ix) == (w == x));
+    assert!((iw == iy) == (w == y));
+    assert!(p.decode(ix) == Some(x));
+    assert!(p.decode(iy) == Some(y));
+    assert!(p.decode(iw) == Some(w));
+    kani::cover!(x != y && z != x && z != y && snap == 2, "q extends a full snapshot with a new term");
+    assert!(p.decode(iz) == Some(z)); // ids handed out by the merged-in side stay valid
+    kani::cover!(w != x && w != y && w != z, "new term after the merge");
+    std::mem::forget(p);
+    std::mem::forget(q);
+}
+
+/// merging a SMALLER dictionary (an older snapshot, an empty one) must not move the counter back into used ids
+#[kani::proof]
+#[kani::unwind(6)]
+fn dict_merge_smaller_keeps_counter() {
+    let mut p = Dictionary::new();
+    let q = Dictionary::new();
+    let (b1, b2, b3) = (ascii2(), ascii2(), ascii2());
+    let (l1, l2, l3): (bool, bool, bool) = (kani::any(), kani::any(), kani::any());
+    let (x, y, w) = (s(&b1, l1), s(&b2, l2), s(&b3, l3));
+    let ix = p.encode(x);
+    let iy = p.encode(y);
+    p.merge(&q);
+    let iw = p.encode(w);
+    assert!((iw == ix) == (w == x));
+    assert!((iw == iy) == (w == y));
+    assert!(p.decode(ix) == Some(x) && p.decode(iy) == Some(y) && p.decode(iw) == Some(w));
+    kani::cover!(x != y && w != x && w != y, "new term after merging an empty dictionary");
     std::mem::forget(p);
     std::mem::forget(q);
 }
